@@ -1,4 +1,4 @@
 SPECIFICATION Spec
-CONSTANTS Peers = {s1, s2}  Probe = probe  LogInAcceptLoop = TRUE  HeadFromWaitStart = FALSE
+CONSTANTS Peers = {s1, s2}  Probe = probe  LogInAcceptLoop = TRUE  HeadFromWaitStart = FALSE  NoMitmWaitLimit = FALSE
 INVARIANTS LoopNeverBlocks
 CHECK_DEADLOCK FALSE
